@@ -15,8 +15,8 @@ import (
 )
 
 var (
-	certOnce         sync.Once
-	certPEM, keyPEM  []byte
+	certOnce        sync.Once
+	certPEM, keyPEM []byte
 )
 
 func makeCert() {
